@@ -139,7 +139,7 @@ pub fn transcode(bytes: &[u8], enc: Enc) -> Vec<u8> {
 
 // ------------------------------------------------------------------------------------------ storage faults
 
-pub const DICT: &[u8] = b",|:[]/-.eNanBCLP\r\n\x00\xff0123456789 \t";
+pub const DICT: &[u8] = b",|:[]/-.eNanBCLP\r\n\x00\xff0123456789 \t\"//";
 
 /// Apply one storage fault; returns its name.
 pub fn storage_fault(rng: &mut Rng, t: &mut Vec<u8>, corpus: &Corpus, allow: &[&'static str]) -> &'static str {
@@ -209,7 +209,9 @@ pub fn storage_fault(rng: &mut Rng, t: &mut Vec<u8>, corpus: &Corpus, allow: &[&
             let o = skip + rng.below(t.len().saturating_sub(skip) + 1);
             match enc {
                 Enc::Utf8 | Enc::Utf8Bom => {
-                    let seqs: [&[u8]; 10] = [&[0x80], &[0xBF], &[0xC0, 0xAF], &[0xE0, 0x80, 0xAF], &[0xF8], &[0xFF], &[0xED, 0xA0, 0x80], &[0xE4, 0xB8], &[0xF0, 0x9F, 0x98], &[0xC3]];
+                    // (incl. well-known ill-formed schemes: CESU-8 surrogate pairs, overlong forms, code points beyond U+10FFFF, a
+                    // UTF-16 or UTF-8 BOM in the middle)
+                    let seqs: [&[u8]; 18] = [&[0x80], &[0xBF], &[0xC0, 0xAF], &[0xE0, 0x80, 0xAF], &[0xF8], &[0xFF], &[0xED, 0xA0, 0x80], &[0xE4, 0xB8], &[0xF0, 0x9F, 0x98], &[0xC3], &[0xED, 0xA0, 0xBD, 0xED, 0xB8, 0x80], &[0xED, 0xAF, 0xBF, 0xED, 0xBF, 0xBF], &[0xED, 0xB8, 0x80, 0xED, 0xA0, 0xBD], &[0xF4, 0x90, 0x80, 0x80], &[0xF0, 0x80, 0x80, 0xAF], &[0xC0, 0x80], &[0xFF, 0xFE], &[0xEF, 0xBB, 0xBF]];
                     let s = *rng.pick(&seqs);
                     t.splice(o..o, s.iter().copied());
                 }
@@ -606,7 +608,7 @@ pub fn gen_osu(rng: &mut Rng) -> String {
             }
             "Events" => {
                 for _ in 0..rng.below(6) {
-                    let l = match rng.below(11) {
+                    let l = match rng.below(12) {
                         0 => format!("0,0,\"{}\",0,0", rng.pick(&["bg.jpg", "b g.png", "x.avi"])),
                         1 => format!("Video,{},\"{}\"", num(rng, -500, 500), rng.pick(&["v.mp4", "V.AVI", "img.JPG", "i.png"])),
                         2 => format!("2,{},{}", time + rng.range(0, 5000), time + rng.range(0, 9000)),
@@ -615,6 +617,7 @@ pub fn gen_osu(rng: &mut Rng) -> String {
                         5 => " F,0,100,200,0,1".to_string(),
                         6 => "Sample,1000,0,\"s.wav\",80".to_string(),
                         7 => format!("{},0", rng.pick(HOSTILE)),
+                        8 => rng.pick(&["0,0,\"\",0,0", "0,0,", "0,0", "Video,0,\"videos//intro//a.mp4\"", "0,0,\"a//b//c//d.png\",0,0", "Video,0,\"bg.jpg\"", "1,0,\"img.png\"", "Video,0,\"\"", "Sample,0,0,\"x//y//z.wav\",50", "0,0,\"//\"", "Background,0,\"b.png\" // c // d"]).to_string(),
                         9 => format!("0,0,\"{}\",0,0", rng.pick(&["$bg", "$a", "$b", "$e", "$var", "$x"])),
                         10 => format!("Sprite,Background,Centre,\"{}\",320,240", rng.pick(&["$bg", "$a", "$section"])),
                         _ => "//Storyboard Layer 0 (Background)".to_string(),
@@ -757,6 +760,18 @@ pub fn record_faults(rng: &mut Rng, text: &str, n: usize) -> (String, Vec<&'stat
             8 => {
                 lines.insert(i, rng.pick(NOISE_LINES).to_string());
                 applied.push("L5-noise");
+            }
+            _ if rng.chance(1, 3) => {
+                // L8: white space of the non-ASCII kind (or VT / FF / NEL) at the very end or the very start of a line —
+                // headers and records alike
+                let ws = *rng.pick(&["\u{A0}", "\u{3000}", "\u{2028}", "\u{2003}", "\u{B}", "\u{C}", "\u{85}", "\u{1680}", "\u{2029}", "\u{202F}", "\u{FEFF}", "\u{200B}"]);
+                let cr = lines[i].ends_with('\r');
+                let body = lines[i].trim_end_matches('\r').to_string();
+                lines[i] = if rng.chance(3, 4) { format!("{body}{ws}") } else { format!("{ws}{body}") };
+                if cr {
+                    lines[i].push('\r');
+                }
+                applied.push("L8-edge-whitespace");
             }
             _ => {
                 if rng.chance(1, 2) {
